@@ -7,8 +7,9 @@ OUT=/verif/seeded/MATRIX_$TIER.json
 WT=/root/scratch/mx_$$
 git -C /repo worktree add -q --detach "$WT" HEAD || exit 2
 trap 'git -C /repo worktree remove --force "$WT" >/dev/null 2>&1; rm -rf /root/scratch/mx_ev_$$' EXIT
+# CHECK=<ID> (optional): run that property's check instead of the seed's own (recorded under "other_checks")
 for S in $SEEDS; do
-  P=${S%%-*}
+  P=${CHECK:-${S%%-*}}
   git -C "$WT" apply "/verif/seeded/$S/patch.diff" || { echo "$S patch does not apply"; continue; }
   s=$(date +%s)
   (cd /verif && VERIF_REPO="$WT" VERIF_EVIDENCE_DIR=/root/scratch/mx_ev_$$ VERIF_REPLAY_DIR=/root/scratch/mx_replays ./check "$P" --tier "$TIER" > "/root/scratch/try_$S.log" 2>&1); rc=$?
@@ -16,11 +17,19 @@ for S in $SEEDS; do
   w=$(( $(date +%s) - s ))
   inst=$(grep -m1 'instance=' /root/scratch/try_$S.log | sed 's/^ *//')
   echo "SEED $S tier=$TIER exit=$rc wall=${w}s $inst"
-  python3 - "$OUT" "$S" "$TIER" "$rc" "$w" "$inst" <<'PY'
+  python3 - "$OUT" "$S" "$TIER" "$rc" "$w" "$inst" "$P" <<'PY'
 import json, sys, os
-out, seed, tier, rc, w, inst = sys.argv[1:7]
+out, seed, tier, rc, w, inst, chk = sys.argv[1:8]
 d = json.load(open(out)) if os.path.exists(out) else {}
-d[seed] = {"check": seed.split("-")[0], "tier": tier, "exit": int(rc), "detected": int(rc) == 1, "wall_s": int(w), "where": inst}
+rec = {"check": chk, "tier": tier, "exit": int(rc), "detected": int(rc) == 1, "wall_s": int(w), "where": inst}
+if chk != seed.split("-")[0]:
+    d.setdefault(seed, {"check": seed.split("-")[0], "tier": tier, "exit": None, "detected": False, "wall_s": 0, "where": ""}).setdefault("other_checks", {})[chk] = rec
+    json.dump(d, open(out, "w"), indent=1, sort_keys=True)
+    sys.exit(0)
+prev = d.get(seed, {})
+d[seed] = rec
+if "other_checks" in prev:
+    d[seed]["other_checks"] = prev["other_checks"]
 json.dump(d, open(out, "w"), indent=1, sort_keys=True)
 m = f"/verif/seeded/{seed}/meta.json"
 md = json.load(open(m)); md.setdefault("detection", {})[tier] = d[seed]; json.dump(md, open(m, "w"), indent=1)
